@@ -94,7 +94,10 @@ def gen_step(rnd, sb, desc, counter):
     if x < 0.80 and shells:
         c = rnd.choice(shells)
         return Step("rename_cmd", cmd=c.name, new="R%d" % counter)
-    return Step("build", target=rnd.choice(list(desc.targets.keys())), jobs=rnd.choice([None, None, 4]))
+    if rnd.random() < 0.25 and prod:
+        # build a single node through the frontend API instead of a target
+        return Step("build", node=rnd.choice(prod), target=None, jobs=rnd.choice([None, 4]))
+    return Step("build", target=rnd.choice(list(desc.targets.keys())), jobs=rnd.choice([None, None, 4]), twice=rnd.random() < 0.1)
 
 
 def apply_step(step, sb, desc):
